@@ -108,18 +108,18 @@ def render(markup: str, style: Union[str, Style] = "", emoji: bool = True) -> Te
     append = text.append
     normalize = Style.normalize
 
-    style_stack: List[Tuple[int, Tag]] = []
+    style_stack: List[Tuple[int, Tag, int]] = []  # (start, tag, index of its span)
     pop = style_stack.pop
 
-    spans: List[Span] = []
+    spans: List[Optional[Span]] = []  # one slot per opened tag, in opening order
     append_span = spans.append
 
     _Span = Span
     _Tag = Tag
 
-    def pop_style(style_name: str) -> Tuple[int, Tag]:
+    def pop_style(style_name: str) -> Tuple[int, Tag, int]:
         """Pop tag matching given style name."""
-        for index, (_, tag) in enumerate(reversed(style_stack), 1):
+        for index, (_, tag, _) in enumerate(reversed(style_stack), 1):
             if tag.name == style_name:
                 return pop(-index)
         raise KeyError(style_name)
@@ -133,30 +133,31 @@ def render(markup: str, style: Union[str, Style] = "", emoji: bool = True) -> Te
                 if style_name:  # explicit close
                     style_name = normalize(style_name)
                     try:
-                        start, open_tag = pop_style(style_name)
+                        start, open_tag, span_index = pop_style(style_name)
                     except KeyError:
                         raise MarkupError(
                             f"closing tag '{tag.markup}' at position {position} doesn't match any open tag"
                         ) from None
                 else:  # implicit close
                     try:
-                        start, open_tag = pop()
+                        start, open_tag, span_index = pop()
                     except IndexError:
                         raise MarkupError(
                             f"closing tag '[/]' at position {position} has nothing to close"
                         ) from None
 
-                append_span(_Span(start, len(text), str(open_tag)))
+                spans[span_index] = _Span(start, len(text), str(open_tag))
             else:  # Opening tag
                 normalized_tag = _Tag(normalize(tag.name), tag.parameters)
-                style_stack.append((len(text), normalized_tag))
+                style_stack.append((len(text), normalized_tag, len(spans)))
+                append_span(None)
 
     text_length = len(text)
     while style_stack:
-        start, tag = style_stack.pop()
-        append_span(_Span(start, text_length, str(tag)))
+        start, tag, span_index = style_stack.pop()
+        spans[span_index] = _Span(start, text_length, str(tag))
 
-    text.spans = sorted(spans)
+    text.spans = spans
     return text
 
 
